@@ -13,6 +13,7 @@ import (
 	"io"
 	"net"
 	"regexp"
+	"strings"
 )
 
 type Channel interface {
@@ -98,7 +99,7 @@ func (u *NetworkChannel) OpenConnection() (net.Conn, error) {
 
 // ------ // ------ // ------ // ------ // ------ // ------ // ------ //
 
-var ChannelRegex = regexp.MustCompile("^(/[a-z0-9_^/]*)->((tcp|udp|unix|unixgram|unixpacket):(.*))$")
+var ChannelRegex = regexp.MustCompile("^([a-z0-9_^/]*)->((tcp|udp|unix|unixgram|unixpacket):(.*))$")
 
 type Channels []Channel
 
@@ -150,27 +151,23 @@ func (chl *Channels) Find(name string) (Channel, error) {
 
 func (chl *Channels) UnmarshalFlag(endpoint string) error {
 
-	if !ChannelRegex.MatchString(endpoint) {
+	// parts: [whole match, name, protocol:address, protocol, address]
+	parts := ChannelRegex.FindStringSubmatch(endpoint)
+	if parts == nil {
 		return errors.Errorf("Channel '%s' does not match %s!", endpoint, ChannelRegex.String())
 	}
 
-	parts := ChannelRegex.FindAllStringSubmatch(endpoint, -1)[0]
-
-	address, err := addr.ParseAddress(parts[1])
+	// Build the channel the same way the configuration file does, so that both forms
+	// accept the same protocols. Both 'tcp:host:port' and 'tcp://host:port' are accepted.
+	channel, err := unmarshalChannel(map[string]interface{}{
+		"name":    parts[1],
+		"address": parts[3] + "://" + strings.TrimPrefix(parts[4], "//"),
+	})
 	if err != nil {
 		return err
 	}
 
-	e := &NetworkChannel{
-		AbstractChannel: AbstractChannel{
-			ProtoName: addr.ProtoName{
-				Name: parts[0],
-			},
-			Address: *address,
-		},
-	}
-
-	*chl = append(*chl, e)
+	*chl = append(*chl, channel)
 
 	return nil
 }
